@@ -360,6 +360,15 @@ func (e *Env) bin(n EBin) Val {
 		}
 		return boolVal(r)
 	case "<", "<=", ">", ">=":
+		for _, v := range []Val{a, b} {
+			if v.T != nil {
+				switch v.T.Underlying().(type) {
+				case *types.Pointer, *types.Map, *types.Chan, *types.Slice, *types.Interface, *types.Signature, *types.Struct:
+					// a captured variable is a cell: write *name
+					e.fail("ordering comparison on a value of type %s (a captured variable needs a dereference: *name)", v.T)
+				}
+			}
+		}
 		if isFloat(a.T) {
 			pfx, sort := fltPfx(a.T)
 			lt := x.decls.Fun(pfx+".lt", []string{sort, sort}, "Bool")
